@@ -310,6 +310,9 @@ func TestC24(t *testing.T) {
 		"transactions ⇒ every SetValue after the ProgramLog(\"END\") marker that is the last statement of their code (and the later ledger-only verification of C22/C23/C20 passes). One evaluation per "+
 		"execution and engine. Non-trivial: a failing run that had already mutated storage/capabilities/contracts in memory before failing, or a script that mutated storage. Distinct by (family, kind, engine, source).")
 
+	if rec.Known("FG1") {
+		rec.ReportKnown("FG1", fg1Repro())
+	}
 	if rec.Known("FG2") {
 		rec.ReportKnown("FG2", fg2Repro())
 	}
